@@ -16,7 +16,8 @@ import (
 //	        meaning)
 //	_aref   `p = $x`
 //	_norm   a path resolved against a value: negative indices and slice bounds become positions of THAT value,
-//	        a slice becomes the index paths of its elements, paths that do not exist vanish; navigating
+//	        a slice becomes the index paths of the elements that READING it selects (.[s:e] applied to
+//	        [0,1,...,n-1]: whatever rounding the read side applies to fractional / special bounds), paths that do not exist vanish; navigating
 //	        into a scalar is the error "_norm: type" (then the case is inconclusive: whether deleting below
 //	        an already deleted scalar is an error depends on the order in jq as well)
 //	_dref   delpaths(ps): every path is resolved against the ORIGINAL value, paths below a deleted path are
@@ -25,8 +26,8 @@ import (
 const defs = `def _clampi($i; $lo; $hi): (if $i < 0 then $i + $hi else $i end) | if . < $lo then $lo elif . < $hi then . else $hi end; ` +
 	`def _norm($v; $p): if ($p | length) == 0 then [] else $p[0] as $k | $p[1:] as $r | ($v | type) as $t | ` +
 	`if ($k | type) == "object" then (if $t == "array" then ($v | length) as $n | ` +
-	`(if $k.start == null then 0 else _clampi($k.start; 0; $n) end) as $s | (if $k.end == null then $n else _clampi($k.end; $s; $n) end) as $e | ` +
-	`if ($r | length) == 0 then (range($s; $e) | [.]) else (_norm($v[$s:$e]; $r) | [.[0] + $s] + .[1:]) end ` +
+	`([range(0; $n)] | .[$k.start:$k.end]) as $idx | ` +
+	`if ($r | length) == 0 then ($idx[] | [.]) else (_norm($v[$k.start:$k.end]; $r) | [.[0] + ($idx[0] // 0)] + .[1:]) end ` +
 	`elif $t == "null" then empty else error("_norm: type") end) ` +
 	`elif ($k | type) == "number" then (if $t == "array" then ($v | length) as $n | (if $k < 0 then $k + $n else $k end) as $i | ` +
 	`if $i < 0 or $i >= $n then empty else [$i] + _norm($v[$i]; $r) end elif $t == "null" then empty else error("_norm: type") end) ` +
@@ -155,6 +156,19 @@ func (g *gen) walk(v any, maxlen int) []string {
 				a, b := r.Intn(n+2), r.Intn(n+2)
 				if a > b && r.Chance(3, 4) {
 					a, b = b, a
+				}
+				if r.Chance(1, 6) {
+					// fractional and special bounds (the value used for guidance is approximate)
+					fb := []string{"0.5", "-0.5", "1.5", "-1.5", "2.9", "-2.9", "-0.0", "nan", "infinite", "-infinite", "1e300", "100000000000000000000", "-100000000000000000000"}
+					switch r.Intn(3) {
+					case 0:
+						steps = append(steps, "["+fb[r.Intn(len(fb))]+":]")
+					case 1:
+						steps = append(steps, "[:"+fb[r.Intn(len(fb))]+"]")
+					default:
+						steps = append(steps, "["+fb[r.Intn(len(fb))]+":"+fb[r.Intn(len(fb))]+"]")
+					}
+					return steps
 				}
 				switch r.Intn(6) {
 				case 0:
@@ -621,6 +635,53 @@ func tailCases(seed uint64, all bool) []*Case {
 				if all || (uint64(i*n*n+j*n+k)+seed)%8 == 0 {
 					add([]string{tailAlts[i], tailAlts[j], tailAlts[k]}, "", "[0,1,2,3]")
 				}
+			}
+		}
+	}
+	return cs
+}
+
+// ---- systematic block: fractional and special slice bounds in start and end position ----
+// laws: the identity update is the identity; writing back a same-length value and reading it gives it back;
+// updating through the slice touches exactly the elements reading selects; del removes as many elements as
+// reading selects; path(.[a:b]) denotes what .[a:b] yields; del = the defining reduction.
+
+var fracBounds = []string{"", "1", "-1", "0.5", "-0.5", "1.5", "-1.5", "2.9", "-2.9", "-0.0", "nan", "infinite", "-infinite", "1e300",
+	"100000000000000000000", "-100000000000000000000"}
+
+func fracCases() []*Case {
+	var cs []*Case
+	law := func(op, lhs, rhs, input string) {
+		c := &Case{Kind: "eq", Q: []string{lhs, defs + rhs}, Input: input, Op: op}
+		cs = append(cs, c)
+	}
+	jb := func(b string) string {
+		if b == "" {
+			return "null"
+		}
+		return b
+	}
+	for _, input := range []string{"[1,2,3]", "[0,1,2,3,4]"} {
+		for _, a := range fracBounds {
+			for _, b := range fracBounds {
+				sl := ".[" + a + ":" + b + "]"
+				if a == "" && b == "" {
+					continue
+				}
+				pobj := `[{"start":` + jb(a) + `,"end":` + jb(b) + `}]`
+				cs = append(cs, &Case{Kind: "path", Q: []string{sl}, Input: input, Op: "path"})
+				law("law-identity", "("+sl+" |= .)", ".", input)
+				law("law-update-selected", "("+sl+" |= map(. * 10))",
+					". as $v | ([range(0; length)] | "+sl+") as $idx | reduce $idx[] as $i ($v; setpath([$i]; getpath([$i]) * 10))", input)
+				law("law-set-get", "("+sl+" | map(. * 10)) as $w | setpath("+pobj+"; $w) | getpath("+pobj+")", sl+" | map(. * 10)", input)
+				law("law-del-count", "del("+sl+") | length", "length - ("+sl+" | length)", input)
+				law("law-getpath-read", "getpath("+pobj+")", sl, input)
+				c := eqCase("del", "", "del("+sl+")", "_dref([path("+sl+")])", input)
+				c.P, c.ScalarF = sl, true
+				cs = append(cs, c)
+				c = eqCase("assign", "", sl+" = ([\"x\"])", "([\"x\"]) as $x | _aref("+sl+"; $x)", input)
+				c.P, c.ScalarF = sl, true
+				cs = append(cs, c)
 			}
 		}
 	}
